@@ -280,6 +280,15 @@ else:
             for union_type in non_none_args:
                 if inspect.isclass(union_type) and type(value) is union_type:
                     return value
+            # ... and so is an instance of a SUBCLASS of a member type (a str
+            # marker type, an enum.StrEnum / IntEnum member); bool is not an int here
+            for union_type in non_none_args:
+                if (
+                    inspect.isclass(union_type)
+                    and isinstance(value, union_type)
+                    and not (isinstance(value, bool) and union_type is not bool)
+                ):
+                    return value
 
             # Try each type in the union
             validation_errors = []
@@ -304,7 +313,11 @@ else:
         # tagged models picks the variant the tag names
         if origin is Literal:
             for allowed in get_args(expected):
-                if type(value) is type(allowed) and value == allowed:
+                if (
+                    isinstance(value, type(allowed))
+                    and isinstance(value, bool) == isinstance(allowed, bool)
+                    and value == allowed
+                ):
                     return value
             raise ValidationError(
                 f"value is not one of {get_args(expected)!r}",
